@@ -1,1 +1,306 @@
-static void own_case(char **f, int nf) { printf("?todo"); }
+/* S-own (C18): the C side of coq/Model/MOwnCases.v.  One case = untraced fault-free setup, then the observed
+ * window in which the k-th allocation fails: the modelled library function(s), what the caller does with the
+ * results, the matching destroy function.  Printed: the allocation/free event trace with object identities
+ * canonicalised to the order of first appearance (A<n> allocation, X failed allocation, F<n> free,
+ * R<old>><new> successful realloc), then " | " and the same numbers the model returns. */
+
+static void own_print_trace(void) {
+    static void *ptr[FD_MAXEV * 2];
+    static int idn[FD_MAXEV * 2];
+    int np = 0, next = 0;
+    for (int i = 0; i < fd_nev; i++) {
+        if (i) putchar(' ');
+        char k = fd_ev[i].kind;
+        if (k == 'X') { putchar('X'); continue; }
+        if (k == 'A') {
+            ptr[np] = fd_ev[i].p; idn[np] = ++next; np++;
+            printf("A%d", next);
+            continue;
+        }
+        /* F or R: find the live name of p (latest mapping), or give it a first-appearance name */
+        int id = 0, at = -1;
+        for (int j = np - 1; j >= 0; j--) if (ptr[j] == fd_ev[i].p) { id = idn[j]; at = j; break; }
+        if (at < 0) id = ++next; else { ptr[at] = NULL; }
+        if (k == 'F') printf("F%d", id);
+        else {
+            ptr[np] = fd_ev[i].q; idn[np] = ++next; np++;
+            printf("R%d>%d", id, next);
+        }
+    }
+    printf(" | ");
+}
+
+static int own_args[1024];
+static int own_nargs;
+static int own_arg(int i) { return i < own_nargs ? own_args[i] : 0; }
+static void own_begin(long k) { fd_nev = 0; fd_tracing = 1; fd_arm(k); }
+static void own_end(void) { fd_disarm(); fd_tracing = 0; }
+
+static htp_cfg_t *own_cfg(int log_on) {
+    htp_cfg_t *cfg = htp_config_create();
+    htp_config_set_log_level(cfg, log_on ? HTP_LOG_DEBUG2 : HTP_LOG_NONE);
+    return cfg;
+}
+static int own_rc3(htp_status_t rc) { return rc == HTP_OK ? 0 : rc == HTP_DECLINED ? 1 : 2; }
+
+/* numbers printed after the trace */
+static int own_out[256];
+static int own_nout;
+static void own_put(int v) { if (own_nout < 256) own_out[own_nout++] = v; }
+static void own_flush(void) {
+    own_print_trace();
+    for (int i = 0; i < own_nout; i++) printf("%s%d", i ? "," : "", own_out[i]);
+}
+
+/* table adds following the key-management contract of the mode */
+static int own_tadd_n(int n, int mode, htp_table_t *t, bstr **kept, int nkept) {
+    for (int i = 0; i < n; i++) {
+        bstr *key = bstr_dup_c("k");
+        if (key == NULL) { own_put(9); continue; }
+        htp_status_t rc;
+        if (mode == HTP_TABLE_KEYS_COPIED) { rc = htp_table_add(t, key, (void *) 1); bstr_free(key); }
+        else if (mode == HTP_TABLE_KEYS_ADOPTED) { rc = htp_table_addn(t, key, (void *) 1); if (rc != HTP_OK) bstr_free(key); }
+        else { rc = htp_table_addk(t, key, (void *) 1); kept[nkept++] = key; }
+        own_put(rc == HTP_OK);
+    }
+    return nkept;
+}
+
+/* one request header line for a description (see ow_case_header) */
+static int own_hdr_counter;
+static size_t own_header_line(htp_tx_t *tx, int base, char *buf, size_t cap) {
+    int prelogs = own_arg(base), existing = own_arg(base + 1), is_cl = own_arg(base + 3), amb = own_arg(base + 4);
+    if (existing > 0) {
+        bstr *key = NULL;
+        htp_table_get_index(tx->request_headers, (size_t) existing - 1, &key);
+        size_t n = 0;
+        if (key != NULL) { memcpy(buf, bstr_ptr(key), bstr_len(key)); n = bstr_len(key); }
+        n += snprintf(buf + n, cap - n, ": %s", is_cl ? (amb ? "6" : "5") : "more");
+        return n;
+    }
+    own_hdr_counter++;
+    if (is_cl) return snprintf(buf, cap, "Content-Length: 5");
+    if (prelogs) return snprintf(buf, cap, "Bad Name%d : v", own_hdr_counter);
+    return snprintf(buf, cap, "N%d: v", own_hdr_counter);
+}
+static void own_headers_n(htp_connp_t *connp, int n, int base) {
+    for (int i = 0; i < n; i++) {
+        char line[256];
+        size_t len = own_header_line(connp->in_tx, base + 5 * i, line, sizeof line);
+        int was = fd_armed;
+        fd_armed = 0;
+        unsigned char *blk = __real_malloc(len ? len : 1);
+        memcpy(blk, line, len);
+        fd_armed = was;
+        htp_status_t rc = htp_process_request_header_generic(connp, blk, len);
+        own_put(rc == HTP_OK);
+        fd_armed = 0;
+        __real_free(blk);
+        fd_armed = was;
+    }
+}
+
+static void own_case(char **f, int nf) {
+    if (nf < 4 || strcmp(f[0], "own") != 0) { printf("?bad-case"); return; }
+    const char *fn = f[1];
+    own_nargs = 0; own_nout = 0; own_hdr_counter = 0;
+    if (strcmp(f[2], "-") != 0) {
+        char *p = f[2];
+        while (*p && own_nargs < 1024) { own_args[own_nargs++] = atoi(p); while (*p && *p != ',') p++; if (*p == ',') p++; }
+    }
+    long k = atol(f[3]);
+
+    if (strcmp(fn, "conn_create") == 0) {
+        own_begin(k);
+        htp_conn_t *c = htp_conn_create();
+        own_put(c == NULL);
+        htp_conn_destroy(c);
+        own_end(); own_flush();
+    } else if (strcmp(fn, "conn_open") == 0) {
+        htp_conn_t *c = htp_conn_create();
+        own_begin(k);
+        htp_status_t rc = htp_conn_open(c, own_arg(0) ? "1.2.3.4" : NULL, 1, own_arg(1) ? "5.6.7.8" : NULL, 2, NULL);
+        own_put(rc == HTP_OK); own_put(c->client_addr == NULL); own_put(c->server_addr == NULL);
+        htp_conn_destroy(c);
+        own_end(); own_flush();
+    } else if (strcmp(fn, "list_create") == 0) {
+        own_begin(k);
+        htp_list_array_t *l = (htp_list_array_t *) htp_list_array_create((size_t) own_arg(0));
+        own_put(l == NULL);
+        htp_list_array_destroy(l);
+        own_end(); own_flush();
+    } else if (strcmp(fn, "list_push") == 0) {
+        htp_list_array_t *l = (htp_list_array_t *) htp_list_array_create((size_t) own_arg(0));
+        if (l == NULL) { own_begin(k); own_put(9); own_end(); own_flush(); return; }
+        for (int i = 0; i < own_arg(1); i++) htp_list_array_push(l, (void *) 1);
+        for (int i = 0; i < own_arg(2); i++) htp_list_array_shift(l);
+        own_begin(k);
+        for (int i = 0; i < own_arg(3); i++) own_put(htp_list_array_push(l, (void *) 1) == HTP_OK);
+        htp_list_array_destroy(l);
+        own_end(); own_flush();
+    } else if (strcmp(fn, "table_create") == 0) {
+        own_begin(k);
+        htp_table_t *t = htp_table_create((size_t) own_arg(0));
+        own_put(t == NULL);
+        htp_table_destroy(t);
+        own_end(); own_flush();
+    } else if (strcmp(fn, "table_add") == 0) {
+        static bstr *kept[128];
+        htp_table_t *t = htp_table_create((size_t) own_arg(1));
+        if (t == NULL) { own_begin(k); own_put(9); own_end(); own_flush(); return; }
+        int nkept = own_tadd_n(own_arg(3), own_arg(2), t, kept, 0);
+        own_nout = 0;
+        own_begin(k);
+        nkept = own_tadd_n(own_arg(4), own_arg(0), t, kept, nkept);
+        if (own_arg(5)) htp_table_clear(t);
+        htp_table_destroy(t);
+        for (int i = 0; i < nkept; i++) bstr_free(kept[i]);
+        own_end(); own_flush();
+    } else if (strcmp(fn, "bstr") == 0) {
+        int op = own_arg(0), wrapped = own_arg(1), flag = own_arg(2);
+        bstr *b = wrapped ? bstr_wrap_mem("abc", 3) : bstr_alloc(10);
+        own_begin(k);
+        if (op == 0) {
+            bstr *d = bstr_dup(b);
+            own_put(d == NULL);
+            bstr_free(d); bstr_free(b);
+        } else {
+            bstr *n;
+            if (op == 1) n = bstr_expand(b, flag ? 1 : 100);                 /* flag = shrink */
+            else n = flag ? bstr_add_mem(b, "xy", wrapped ? 0 : 2)            /* flag = fits */
+                          : bstr_add_mem(b, "0123456789012345678901234567890123456789", 40);
+            own_put(n == NULL);
+            if (n == NULL) bstr_free(b); else bstr_free(n);
+        }
+        own_end(); own_flush();
+    } else if (strcmp(fn, "builder") == 0) {
+        own_begin(k);
+        bstr_builder_t *bb = bstr_builder_create();
+        if (bb == NULL) own_put(9);
+        else {
+            for (int i = 0; i < own_arg(0); i++) own_put(bstr_builder_append_mem(bb, "piece", 5) == HTP_OK);
+            bstr *s = bstr_builder_to_str(bb);
+            own_put(s == NULL);
+            bstr_free(s);
+            bstr_builder_clear(bb);
+            for (int i = 0; i < own_arg(1); i++) own_put(bstr_builder_append_mem(bb, "piece", 5) == HTP_OK);
+            bstr *s2 = bstr_builder_to_str(bb);
+            own_put(s2 == NULL);
+            bstr_free(s2);
+            bstr_builder_destroy(bb);
+        }
+        own_end(); own_flush();
+    } else if (strcmp(fn, "hook") == 0) {
+        own_begin(k);
+        htp_hook_t *hk = NULL;
+        for (int i = 0; i < own_arg(0); i++) own_put(htp_hook_register(&hk, (htp_callback_fn_t) cb_generic) == HTP_OK);
+        htp_hook_t *cp = htp_hook_copy(hk);
+        own_put(cp == NULL);
+        htp_hook_destroy(cp);
+        htp_hook_destroy(hk);
+        own_end(); own_flush();
+    } else if (strcmp(fn, "connp_create") == 0) {
+        htp_cfg_t *cfg = own_cfg(0);
+        own_begin(k);
+        htp_connp_t *p = htp_connp_create(cfg);
+        own_put(p == NULL);
+        htp_connp_destroy_all(p);
+        own_end(); own_flush();
+        htp_config_destroy(cfg);
+    } else if (strcmp(fn, "tx_create") == 0) {
+        htp_cfg_t *cfg = own_cfg(0);
+        htp_connp_t *p = htp_connp_create(cfg);
+        for (int i = 0; i < own_arg(0); i++) htp_tx_create(p);
+        own_begin(k);
+        for (int i = 0; i < own_arg(1); i++) own_put(htp_tx_create(p) != NULL);
+        htp_connp_destroy_all(p);
+        own_end(); own_flush();
+        htp_config_destroy(cfg);
+    } else if (strcmp(fn, "header") == 0) {
+        htp_cfg_t *cfg = own_cfg(own_arg(0));
+        htp_connp_t *p = htp_connp_create(cfg);
+        htp_connp_tx_create(p);
+        own_headers_n(p, own_arg(1), 3);
+        own_nout = 0;
+        own_begin(k);
+        own_headers_n(p, own_arg(2), 3 + 5 * own_arg(1));
+        htp_connp_destroy_all(p);
+        own_end(); own_flush();
+        htp_config_destroy(cfg);
+    } else if (strcmp(fn, "auth") == 0) {
+        htp_cfg_t *cfg = own_cfg(0);
+        htp_connp_t *p = htp_connp_create(cfg);
+        htp_connp_tx_create(p);
+        htp_header_t *h = calloc(1, sizeof (htp_header_t));
+        h->value = bstr_dup_c(own_arg(0) ? "Basic   " : own_arg(1) ? "Basic ====" : own_arg(2) ? "Basic dXNlcjpwdw==" : "Basic dXNlcg==");
+        own_begin(k);
+        htp_status_t rc = htp_parse_authorization_basic(p, h);
+        own_put(own_rc3(rc));
+        own_put(p->in_tx->request_auth_username == NULL);
+        own_put(p->in_tx->request_auth_password == NULL);
+        bstr_free(h->value);
+        free(h);
+        htp_connp_destroy_all(p);
+        own_end(); own_flush();
+        htp_config_destroy(cfg);
+    } else if (strcmp(fn, "part_create") == 0 || strcmp(fn, "part_cd") == 0) {
+        htp_cfg_t *cfg = own_cfg(0);
+        htp_mpartp_t *mp = htp_mpartp_create(cfg, bstr_dup_c("bnd"), 0);
+        if (strcmp(fn, "part_create") == 0) {
+            own_begin(k);
+            htp_multipart_part_t *part = htp_mpart_part_create(mp);
+            own_put(part == NULL);
+            htp_mpart_part_destroy(part, 0);
+            own_end(); own_flush();
+        } else {
+            htp_multipart_part_t *part = htp_mpart_part_create(mp);
+            if (own_arg(0)) {
+                char v[512];
+                size_t n = snprintf(v, sizeof v, "%s", own_arg(1) ? "form-data" : "attachment");
+                for (int i = 3; i < own_nargs; i++)
+                    n += snprintf(v + n, sizeof v - n, "%s", own_arg(i) == 1 ? "; name=\"n\"" : own_arg(i) == 2 ? "; filename=\"f\"" : "; x=\"y\"");
+                if (own_arg(2)) n += snprintf(v + n, sizeof v - n, "; q");
+                htp_header_t *h = calloc(1, sizeof (htp_header_t));
+                h->name = bstr_dup_c("Content-Disposition");
+                h->value = bstr_dup_c(v);
+                htp_table_add(part->headers, h->name, h);
+            }
+            own_begin(k);
+            htp_status_t rc = htp_mpart_part_parse_c_d(part);
+            own_put(own_rc3(rc)); own_put(part->file == NULL); own_put(part->name == NULL);
+            htp_mpart_part_destroy(part, 0);
+            own_end(); own_flush();
+        }
+        htp_mpartp_destroy(mp);
+        htp_config_destroy(cfg);
+    } else if (strcmp(fn, "req_buffer") == 0) {
+        static unsigned char data[16] = "0123456789";
+        htp_cfg_t *cfg = own_cfg(own_arg(0));
+        htp_connp_t *p = htp_connp_create(cfg);
+        htp_connp_tx_create(p);
+        own_begin(k);
+        for (int i = 0; i < own_arg(1); i++) {
+            p->in_current_data = data;
+            p->in_current_len = 10;
+            p->in_current_read_offset = 10;
+            p->in_current_consume_offset = 0;
+            if (own_arg(2) && i == own_arg(1) - 1) p->in_tx->cfg->field_limit_hard = 5;
+            own_put(htp_connp_req_buffer(p) == HTP_OK);
+        }
+        p->in_current_data = NULL;
+        htp_connp_destroy_all(p);
+        own_end(); own_flush();
+        htp_config_destroy(cfg);
+    } else if (strcmp(fn, "log") == 0) {
+        htp_cfg_t *cfg = own_cfg(own_arg(0));
+        htp_connp_t *p = htp_connp_create(cfg);
+        own_begin(k);
+        for (int i = 0; i < own_arg(1); i++) htp_log(p, HTP_LOG_MARK, HTP_LOG_ERROR, 0, "message %d", i);
+        own_put((int) htp_list_size(p->conn->messages));
+        htp_connp_destroy_all(p);
+        own_end(); own_flush();
+        htp_config_destroy(cfg);
+    } else {
+        printf("?unknown-function %s", fn);
+    }
+}
